@@ -69,6 +69,7 @@ def in_band(case, pt) -> bool:
 class C02(PropertyCheck):
     pid = "C02"
     title = "pixel <-> scaled coordinate maps and shape masks"
+    generated_modules = ["Geometry"]  # second tie: Python -> Lean translation + `rfl` against Model.Geometry
     rtol = F(1, 10**9)
     nontrivial_rule = (
         "geometry cases: every shape in the tier's box (non-square included) x anisotropic scales x "
